@@ -4,6 +4,7 @@ import (
 	"fmt"
 	"go/ast"
 	"go/token"
+	"go/types"
 	"sort"
 
 	"lachk/core"
@@ -143,7 +144,8 @@ func runC29(c *core.Ctx) {
 			if f == norm {
 				continue
 			}
-			calls := core.Points(f.CallsTo(lruT + ".normalize"))
+			// a helper that always normalizes counts as normalize()
+			calls := f.SitesMust(func(cs *core.CallSite) bool { return cs.Name == lruT+".normalize" }, 2)
 			var grow []assignment
 			for _, a := range assignments(f) {
 				fn := fieldNameOf(f, a.LHS)
@@ -204,12 +206,21 @@ func runC29(c *core.Ctx) {
 			}
 		}
 		c.Check(okLen, "Len is evictList.Len()", "provenance", lenF.Pos(), "Len() returns the eviction list's length", "Len() is not the eviction list's length")
-		// (c) the loop body removes the oldest: removeOldest removes evictList.Back()
-		ro := c.Fn(lruT + ".removeOldest")
-		body := norm.CallsTo(lruT + ".removeOldest")
-		c.Check(len(body) == 1, "normalize evicts via removeOldest", "T6 WhoMayCall", norm.Pos(), "normalize's loop calls removeOldest", "normalize does not call removeOldest exactly once")
-		checkRemovesBack(c, ro, "removeOldest")
-		checkRemovesBack(c, c.Fn(lruT+".RemoveOldest"), "RemoveOldest")
+		// (c) normalize makes progress only by evicting the least recently used element: every cycle of its
+		// CFG removes evictList.Back() (in place or in a helper) or has found the list empty
+		sites, empty := c29BackEvictions(norm, 2)
+		wit, idle, loops := c29IdleCycle(norm, sites, empty)
+		if !loops {
+			c.Undecided("normalize evicts the oldest entry per iteration", "T7 Pairing (loop)", norm.Pos(), "normalize contains no loop: cannot relate its iterations to evictions")
+		} else {
+			c.Check(!idle, "normalize evicts the oldest entry per iteration", "T7 Pairing (loop)", norm.Pos(),
+				"every iteration of normalize removes evictList.Back() (the least recently used entry) unless the list is empty",
+				"normalize can iterate without removing evictList.Back(): entries other than the least recently used are evicted, or none: "+norm.DescribePath(wit))
+		}
+		ro := c.Fn(lruT + ".RemoveOldest")
+		c.Check(c29AlwaysEvictsBack(ro, 2), "RemoveOldest removes evictList.Back()", "provenance", ro.Pos(),
+			"every path of RemoveOldest removes the list's back (least recently used) element or has found the list empty",
+			"RemoveOldest can return without removing evictList.Back(): the evicted element is not the least recently used one")
 	})
 
 	c.Clause("C29.recency", func() {
@@ -259,26 +270,42 @@ func runC29(c *core.Ctx) {
 
 	c.Clause("C29.keys", func() {
 		f := c.Fn(lruT + ".Keys")
-		var loop *ast.ForStmt
-		f.InspectOwn(func(n ast.Node) bool {
-			if fs, ok := n.(*ast.ForStmt); ok && loop == nil {
-				loop = fs
-			}
-			return true
-		})
-		c.Need(loop != nil && loop.Init != nil && loop.Post != nil, "Keys iterates with a for loop (init; cond; post)")
-		initOK, postOK := false, false
-		if as, ok := loop.Init.(*ast.AssignStmt); ok && len(as.Rhs) == 1 {
-			if call := isCallTo(f, as.Rhs[0], "container/list.List.Back"); call != nil {
-				initOK = true
+		// the cursor is the variable started at evictList.Back(); whatever the loop is written like, its
+		// only other definitions must be cursor = cursor.Prev(), and every cycle of Keys must take that step
+		var cur *types.Var
+		for _, a := range assignments(f) {
+			if a.RHS != nil && c29IsBack(f, a.RHS) {
+				if v := varOf(f, a.LHS); v != nil {
+					cur = v
+				}
 			}
 		}
-		if as, ok := loop.Post.(*ast.AssignStmt); ok && len(as.Rhs) == 1 {
-			if call := isCallTo(f, as.Rhs[0], "container/list.Element.Prev"); call != nil {
-				postOK = true
+		if cur == nil {
+			c.Fail("Keys walks Back -> Prev", "cursor provenance + loop", f.Pos(), "Keys has no cursor started at evictList.Back(): the keys are not listed from the oldest entry")
+			return
+		}
+		var steps []core.Point
+		onlyPrev := true
+		for _, a := range assignsToVar(f, cur) {
+			if a.RHS != nil && c29IsBack(f, a.RHS) {
+				continue
+			}
+			stepped := false
+			if a.RHS != nil && (a.Tok == token.ASSIGN || a.Tok == token.DEFINE) {
+				if call := isCallTo(f, a.RHS, "container/list.Element.Prev"); call != nil {
+					if sel, ok := ast.Unparen(call.Fun).(*ast.SelectorExpr); ok && varOf(f, sel.X) == cur {
+						stepped = true
+					}
+				}
+			}
+			if stepped {
+				steps = append(steps, a.Pt)
+			} else {
+				onlyPrev = false
 			}
 		}
-		c.Check(initOK && postOK, "Keys walks Back -> Prev", "loop shape", loop.Pos(), "Keys starts at evictList.Back() and steps with Prev(): oldest to newest", "Keys does not walk from Back() via Prev(): order is not oldest-to-newest")
+		_, idle, loops := c29IdleCycle(f, steps, nil)
+		c.Check(onlyPrev && loops && !idle, "Keys walks Back -> Prev", "cursor provenance + loop", f.Pos(), "Keys starts at evictList.Back() and every iteration steps with Prev(): oldest to newest", "Keys does not walk from Back() via Prev() on every iteration: order is not oldest-to-newest")
 	})
 
 	c.Clause("C29.wrapper", func() {
@@ -310,25 +337,4 @@ func runC29(c *core.Ctx) {
 		}
 		c.ExpectAtLeast("wlru wrapper methods", n, 15)
 	})
-}
-
-// checkRemovesBack: the function removes (via removeElement) the element obtained from evictList.Back().
-func checkRemovesBack(c *core.Ctx, f *core.FuncInfo, label string) {
-	re := f.CallsTo(lruT + ".removeElement")
-	ok := len(re) == 1 && len(re[0].Call.Args) == 1
-	if ok {
-		v := varOf(f, re[0].Call.Args[0])
-		ok = false
-		if v != nil {
-			as := assignsToVar(f, v)
-			if len(as) == 1 && as[0].RHS != nil {
-				if call := isCallTo(f, as[0].RHS, "container/list.List.Back"); call != nil {
-					if sel, k := call.Fun.(*ast.SelectorExpr); k && fieldNameOf(f, sel.X) == lruT+".evictList" {
-						ok = true
-					}
-				}
-			}
-		}
-	}
-	c.Check(ok, label+" removes evictList.Back()", "provenance", f.Pos(), "the evicted element is the list's back (least recently used)", "the evicted element is not evictList.Back()")
 }
